@@ -417,6 +417,16 @@ func runEnc(c *eng.Ctx, cf cfg) {
 							key3 := fmt.Sprintf("enc/%s/%d/%v/%v/%s/%s/%d/%s/%s/%d/%v/%v", cf.Ring, cf.LogN, cf.QBits, cf.PBits, cf.Xs, cf.Xe, level, keyType, v.name, degree, isNTT, isMont)
 							c.Distinct(key3, !(level == params.MaxLevel() && keyType == "sk" && v.name == "plain" && degree == 1 && isNTT && !isMont))
 							ct := rlwe.NewCiphertext(params, degree, level)
+							if rnd.N(3) == 0 {
+								// reused receiver: it still holds an unrelated ciphertext (uniform residues, other flags)
+								for k := range ct.Value {
+									for i := 0; i <= level; i++ {
+										copy(ct.Value[k].Coeffs[i], gen.Vec(rnd, n, rq.SubRings[i].Modulus-1, gen.PatUniform, 0))
+									}
+								}
+								ct.IsNTT, ct.IsMontgomery = rnd.Bool(), rnd.Bool()
+								c.Count("encryptions_into_used_receiver", 1)
+							}
 							var encErr error
 							sigBase := fmt.Sprintf("C03|Encryptor.Encrypt|%s|deg%d|ntt=%v|mont=%v|P=%v", keyType, degree, isNTT, isMont, len(cf.P) > 0)
 							useEnc := enc
